@@ -472,3 +472,84 @@ Fixpoint local_prog {A} (p : sprog A) : Prop :=
   | SOp o k => local_op o = true /\ forall v, local_prog (k v)
   | _ => True
   end.
+
+(* ------------------------------------------------------------------ three more fragment-level pairs as reader programs *)
+(* mfhd and tfdt are written twice (DecodeMfhd / DecodeTfdt parse the body themselves and return `b, nil`: the private reader's
+   error is not consulted); DecodeTfhd reads the body and calls DecodeTfhdSR.  Values: the decoded fields, in order. *)
+Definition vN (v : rval) : N := match v with VN x => x | _ => 0 end.
+
+(* DecodeMfhd (after readBoxBody) *)
+Definition mfhd_prog_r : sprog (list N) :=
+  SOp RU32 (fun vf => SOp RU32 (fun sq => SRet [vN vf / 16777216; N.land (vN vf) flags_mask; vN sq])).
+(* DecodeMfhdSR *)
+Definition mfhd_prog_sr : sprog (list N) :=
+  SOp RU32 (fun vf => SOp RU32 (fun sq => SRet [vN vf / 16777216; N.land (vN vf) flags_mask; vN sq])).
+
+(* DecodeTfdt (after readBoxBody): `if version == 0 { uint64(s.ReadUint32()) } else { s.ReadUint64() }` *)
+Definition tfdt_prog_r : sprog (list N) :=
+  SOp RU32 (fun vf =>
+    if (vN vf / 16777216 =? 0) then SOp RU32 (fun t => SRet [vN vf / 16777216; N.land (vN vf) flags_mask; vN t])
+    else SOp RU64 (fun t => SRet [vN vf / 16777216; N.land (vN vf) flags_mask; vN t])).
+(* DecodeTfdtSR *)
+Definition tfdt_prog_sr : sprog (list N) :=
+  SOp RU32 (fun vf =>
+    if (vN vf / 16777216 =? 0) then SOp RU32 (fun t => SRet [vN vf / 16777216; N.land (vN vf) flags_mask; vN t])
+    else SOp RU64 (fun t => SRet [vN vf / 16777216; N.land (vN vf) flags_mask; vN t])).
+
+(* DecodeTfhdSR (DecodeTfhd delegates to it): optional fields by flag 0x1 (64 bit), 0x2, 0x8, 0x10, 0x20 (32 bit); absent = 0 *)
+Definition opt_read (present : bool) (o : rop) (k : N -> sprog (list N)) : sprog (list N) :=
+  if present then SOp o (fun v => k (vN v)) else k 0.
+Definition tfhd_prog : sprog (list N) :=
+  SOp RU32 (fun vf =>
+    let fl := N.land (vN vf) flags_mask in
+    SOp RU32 (fun tid =>
+      opt_read (hasf fl 1) RU64 (fun bdo =>
+      opt_read (hasf fl 2) RU32 (fun sdi =>
+      opt_read (hasf fl 8) RU32 (fun dur =>
+      opt_read (hasf fl 16) RU32 (fun dsz =>
+      opt_read (hasf fl 32) RU32 (fun dfl =>
+        SRet [vN vf / 16777216; fl; vN tid; bdo; sdi; dur; dsz; dfl]))))))).
+Definition tfhd_size (fl : N) : N :=
+  16 + (if hasf fl 1 then 8 else 0) + (if hasf fl 2 then 4 else 0) + (if hasf fl 8 then 4 else 0) + (if hasf fl 16 then 4 else 0)
+  + (if hasf fl 32 then 4 else 0).
+
+(* reader path: readBoxBody, the program on a private reader; consult = whether its AccError() is returned *)
+Definition prog_body_r {A} (consult : bool) (p : sprog A) (data : list N) : res A :=
+  do (a, r') <- run_sprog p (rnew data); if consult && rerr r' then Err else Ok a.
+Definition prog_r {A} (consult : bool) (p : sprog A) (h : hdr) (s : ist) : res A * ist :=
+  let '(rb, s1) := read_box_body h s in (do data <- rb; prog_body_r consult p data, s1).
+(* SR path: the program on the caller's reader, `return b, sr.AccError()` *)
+Definition prog_sr {A} (p : sprog A) (sr : rstate) : res (A * rstate) :=
+  do (a, r') <- run_sprog p sr; if rerr r' then Err else Ok (a, r').
+
+Definition name_mfhd : list N := [109; 102; 104; 100].
+Definition name_tfdt : list N := [116; 102; 100; 116].
+Definition name_tfhd : list N := [116; 102; 104; 100].
+
+(* Size() of the decoded box: mfhd 16; tfdt 16 / 20 by version; tfhd by flags *)
+Definition progbox_size (nm fields : list N) : N :=
+  if eqb_name nm name_mfhd then 16
+  else if eqb_name nm name_tfdt then (if (nth 0 fields 0 =? 0) then 16 else 20)
+  else tfhd_size (nth 1 fields 0).
+
+Definition progbox_r (bs : list N) : res (list N * N) :=
+  match decode_header (inew bs) with
+  | (Ok (HHdr h), s1) =>
+      if eqb_name (hname h) name_mfhd then (let '(r, s2) := prog_r false mfhd_prog_r h s1 in do t <- r; Ok (t, ipos s2))
+      else if eqb_name (hname h) name_tfdt then (let '(r, s2) := prog_r false tfdt_prog_r h s1 in do t <- r; Ok (t, ipos s2))
+      else if eqb_name (hname h) name_tfhd then (let '(r, s2) := prog_r true tfhd_prog h s1 in do t <- r; Ok (t, ipos s2))
+      else Err
+  | (Ok HEof, _) => Err
+  | (Err, _) => Err | (Panic, _) => Panic | (OutOfFuel, _) => OutOfFuel
+  end.
+Definition progbox_sr (bs : list N) : res (list N * Z * bool) :=
+  match decode_header_sr (snew bs) with
+  | (Ok h, s1) =>
+      let maxSize := addu64 (u64z (nr_remaining (sr s1))) (hlen h) in
+      if (maxSize <? hsize h) then Err
+      else if eqb_name (hname h) name_mfhd then (do (t, r2) <- prog_sr mfhd_prog_sr (sr s1); Ok (t, rpos r2, rerr r2))
+      else if eqb_name (hname h) name_tfdt then (do (t, r2) <- prog_sr tfdt_prog_sr (sr s1); Ok (t, rpos r2, rerr r2))
+      else if eqb_name (hname h) name_tfhd then (do (t, r2) <- prog_sr tfhd_prog (sr s1); Ok (t, rpos r2, rerr r2))
+      else Err
+  | (Err, _) => Err | (Panic, _) => Panic | (OutOfFuel, _) => OutOfFuel
+  end.
